@@ -68,6 +68,15 @@ type Gen struct {
 	FuseSeps  bool  // allow statements fused without any separator (corruption, C12/C13)
 	Fused     []int // indices of first tokens of statements fused to their predecessor
 	BlockEnds []int // indices of the closing braces of blocks and function bodies
+	// trivia (comments / blank lines attached to tokens)
+	TriviaLeft  int   // how many more tokens may carry trivia
+	TriviaSites int   // 0: statement boundaries only, 1: any token that may follow a line break
+	TriviaKinds int   // number of trivia shapes in use
+	SymComments bool  // comment bytes symbolic (printable) instead of "c"
+	Decorated   []int // indices of tokens carrying trivia
+	site        bool  // the next token is a statement-boundary token
+	noTrivia    int   // >0: inside a for header or while inserting tokens
+	StmtFirst   []int // index of the first token of every statement (in generation order)
 }
 
 func NewGen(budget int) *Gen {
@@ -94,6 +103,20 @@ func (g *Gen) tok(t token.Type, lit string) int {
 	case g.Layout:
 		tk.AfterNewline = sym.Bool("nl")
 	}
+	if g.TriviaLeft > 0 && g.noTrivia == 0 && g.force != 0 && (g.site || g.TriviaSites == 1) {
+		if k := sym.Choose("trivia", 1+g.TriviaKinds); k > 0 {
+			tk.LeadingComments = g.trivia(k)
+			tk.AfterNewline = true
+			if idx == 0 && len(tk.LeadingComments) > 0 && tk.LeadingComments[0] != "" {
+				// a comment at the very start of the input has no line break before it...
+				// but one after it
+				tk.AfterNewline = true
+			}
+			g.TriviaLeft--
+			g.Decorated = append(g.Decorated, idx)
+		}
+	}
+	g.site = false
 	g.force = -1
 	g.Toks = append(g.Toks, tk)
 	g.InFunc = append(g.InFunc, g.inFunc > 0)
@@ -102,6 +125,39 @@ func (g *Gen) tok(t token.Type, lit string) int {
 }
 
 func (g *Gen) kw(t token.Type) int { return g.tok(t, Lexeme(t)) }
+
+func (g *Gen) comment(name string) string {
+	if !g.SymComments {
+		return name
+	}
+	n := 1 + sym.Choose("commentlen", sym.Param("commentlen", 2))
+	c := sym.String("comment", n)
+	for i := 0; i < n; i++ {
+		// printable ASCII; the last byte is not a space (the lexer trims them)
+		sym.Assume(sym.And(c[i] >= 0x20, c[i] <= 0x7e))
+	}
+	sym.Assume(c[n-1] != ' ')
+	return c
+}
+
+// trivia returns the LeadingComments value the lexer would attach for one of
+// the source layouts: 1 own-line comment, 2 trailing comment (same line as the
+// previous token), 3 one blank line, 4 blank line + two own-line comments,
+// 5 trailing comment followed by an own-line comment.
+func (g *Gen) trivia(k int) []string {
+	switch k {
+	case 1:
+		return []string{"", g.comment("c")}
+	case 2:
+		return []string{g.comment("t")}
+	case 3:
+		return []string{"", ""}
+	case 4:
+		return []string{"", "", g.comment("c"), g.comment("d")}
+	default:
+		return []string{g.comment("t"), g.comment("c")}
+	}
+}
 
 // opIn returns an operator token type of the class: symbolic (one solver
 // variable) unless ConcreteOps.
@@ -124,6 +180,9 @@ func (g *Gen) opIn(class []token.Type, name string) token.Type {
 func (g *Gen) opTok(t token.Type) int {
 	// the literal of an operator token is its text; with a symbolic type the
 	// text is irrelevant to the parser (it copies it into Operator)
+	if g.ConcreteOps {
+		return g.tok(t, Lexeme(t))
+	}
 	return g.tok(t, "op")
 }
 
@@ -457,6 +516,7 @@ func (g *Gen) Block(nestKind int) {
 		g.inFunc--
 	}
 	g.nest = g.nest[:len(g.nest)-1]
+	g.site = true
 	g.BlockEnds = append(g.BlockEnds, g.kw(token.RBRACE))
 }
 
@@ -535,7 +595,19 @@ func (g *Gen) firstContinues(t token.Type) bool {
 }
 
 func (g *Gen) insert(at int, t token.Type) {
+	g.noTrivia++
 	g.kw(t)
+	g.noTrivia--
+	for i := range g.Decorated {
+		if g.Decorated[i] >= at {
+			g.Decorated[i]++
+		}
+	}
+	for i := range g.StmtFirst {
+		if g.StmtFirst[i] >= at {
+			g.StmtFirst[i]++
+		}
+	}
 	tk := g.Toks[len(g.Toks)-1]
 	inF, ne := g.InFunc[at], g.Nest[at]
 	copy(g.Toks[at+1:], g.Toks[at:len(g.Toks)-1])
@@ -570,6 +642,8 @@ func (g *Gen) insert(at int, t token.Type) {
 // closed: the statement must not end in an else-less if (it is followed by
 // `else`, which would otherwise attach to that inner if).
 func (g *Gen) Stmt(body, closed bool) bool {
+	g.site = true
+	g.StmtFirst = append(g.StmtFirst, len(g.Toks))
 	kind := sExpr
 	if g.Budget > 0 {
 		kinds := []int{sExpr, sBlock}
@@ -648,6 +722,7 @@ func (g *Gen) Stmt(body, closed bool) bool {
 		g.emit(KFor)
 		g.kw(token.FOR)
 		g.kw(token.LPAREN)
+		g.noTrivia++
 		switch sym.Choose("forinit", 3) {
 		case 0:
 			g.emit(KNil)
@@ -674,6 +749,7 @@ func (g *Gen) Stmt(body, closed bool) bool {
 			g.emit(KNil)
 		}
 		g.kw(token.RPAREN)
+		g.noTrivia--
 		return g.Stmt(true, closed)
 	case sBlock:
 		g.spend()
@@ -711,6 +787,14 @@ func (g *Gen) Program(maxStmts int) *Script {
 	s := &Script{Toks: g.Toks}
 	s.EOF = symTok(token.EOF, "")
 	s.EOF.End.Column = len(g.Toks)
+	if g.TriviaLeft > 0 && sym.Param("eoftrivia", 1) == 1 {
+		if k := sym.Choose("trivia", 1+g.TriviaKinds); k > 0 {
+			s.EOF.LeadingComments = g.trivia(k)
+			s.EOF.AfterNewline = true
+			g.TriviaLeft--
+			g.Decorated = append(g.Decorated, len(g.Toks))
+		}
+	}
 	if g.ConcretePos {
 		s.EOF.Start = token.Position{Line: 0, Column: 2 * len(g.Toks)}
 		s.EOF.End = s.EOF.Start
